@@ -206,6 +206,12 @@ RetoggleEff(c, d) ==
   /\ UNCHANGED <<h, seq, cseq, commits, receipts, acks, out, bind, ubal, wbal, rbal, held, status, marks, snaps, sent, rot, badrel>>
 Retoggle(c, d) == RetoggleEff(c, d) /\ last' = [act |-> "Retoggle", res |-> "ok", chain |-> c, counter |-> d]
 
+(* Governance on chain c creates a client for a further chain (one that takes no part in these behaviours), whose   *)
+(* name is chosen to be a proper prefix of the name of c's counterparty d, or - nm = "ext" - to extend it:         *)
+(* store paths are built from chain names, and nothing recorded under d's name may be touched.  No variable changes. *)
+NewClientEff(c, d, nm) == UNCHANGED stateVars
+NewClient(c, d, nm) == NewClientEff(c, d, nm) /\ last' = [act |-> "NewClient", res |-> "ok", chain |-> c, counter |-> d, name |-> nm]
+
 (* Governance on chain c re-registers the relayer for chain d with another counterparty address (or back).  From    *)
 (* then on the acknowledgements c writes for packets from d name that address, and acknowledgements written by d     *)
 (* that name the previous one are no longer payable on c.                                                            *)
@@ -340,6 +346,7 @@ Next ==
   \/ \E c \in Chains : Commit(c)
   \/ \E c \in Chains : \E d \in Others(c), k \in 0..MaxH, s \in Signers : UpdateClient(c, d, k, s)
   \/ \E c \in Chains : \E d \in Others(c) : Retoggle(c, d)
+  \/ \E c \in Chains : \E d \in Others(c), nm \in {"prefix", "ext"} : NewClient(c, d, nm)
   \/ \E c \in Chains : \E d \in Others(c) : WithRotate /\ Rotate(c, d)
   \/ \E p \in sent, alt \in Alts, k \in 0..MaxH, pf \in Proofs, s \in Signers : Recv(p.dst, p, alt, k, pf, s)
   \/ \E p \in sent, alt \in Alts, aalt \in AckAlts, k \in 0..MaxH, pf \in Proofs, s \in Signers :
